@@ -920,6 +920,10 @@ def rule_link(out):
                 out.ok(rid, "%s/%s" % (kind, name), at, "table exception: " + exc)
                 continue
             ok = name in defined.get(kind, set())
+            if "*" in name:
+                # a name with a computed part the Go side could not enumerate: some runtime name must match
+                import fnmatch
+                ok = any(fnmatch.fnmatchcase(d, name) for d in defined.get(kind, set()))
             out.check(ok, rid, "%s/%s" % (kind, name), at, "defined in " + where[kind],
                       "the generator emits `%s` (%s) but the shipped runtime (%s) defines no such name: the generated code fails to import/compile/run for models that reach this template" % (name, kind, where[kind]))
 
